@@ -207,3 +207,50 @@ func VerifC01LpmEntryStep() {
 	}
 	vnd.Cover("C01.lpmentry.end")
 }
+
+func init() { verifEntries["VerifC01Reader"] = VerifC01Reader }
+
+// VerifC01Reader: a reader thread takes a snapshot at an arbitrary moment and
+// evaluates the full observation twice while a writer thread runs N write
+// transactions; the VM may switch between them at every synchronisation
+// operation (bounded preemptions). Both observations must be identical, and
+// equal to one of the committed states.
+func VerifC01Reader() {
+	N := vnd.Param("N", 2)
+	d := newVDB(vTagsIndex, vLPMIndex)
+	w := d.db.WriteTxn(d.table)
+	for i := 0; i < 2; i++ {
+		d.table.Insert(w, &vobj{id: []byte{byte('b' + 2*i)}, tags: [][]byte{{'t'}}, pfx: []byte{0x10}, plen: 4, val: uint64(i)})
+	}
+	w.Commit()
+	q := &c01queries{qid: []byte{'b'}, qtag: []byte{'t'}, qpfx: []byte{0x10}, qpl: 4}
+	var committed []*observation
+	committed = append(committed, c01observe(d, d.db.ReadTxn(), q, true))
+	done := make(chan struct{})
+	vnd.Go(func() {
+		defer close(done)
+		for i := 0; i < N; i++ {
+			w := d.db.WriteTxn(d.table)
+			k := []byte{byte('a' + vnd.IntRange("key", 0, 4))}
+			if vnd.Bool("insert") {
+				d.table.Insert(w, &vobj{id: k, tags: [][]byte{{'t'}}, pfx: []byte{0x10}, plen: 4, val: uint64(10 + i)})
+			} else {
+				d.table.Delete(w, &vobj{id: k})
+			}
+			if vnd.Bool("commit") {
+				w.Commit()
+			} else {
+				w.Abort()
+			}
+		}
+	})
+	snap := d.db.ReadTxn()
+	o1 := c01observe(d, snap, q, true)
+	vnd.Yield()
+	o2 := c01observe(d, snap, q, true)
+	sameObs(o1, o2, "C01.reader.frozen-under-concurrent-writer")
+	<-done
+	o3 := c01observe(d, snap, q, true)
+	sameObs(o1, o3, "C01.reader.frozen-after-writer")
+	vnd.Cover("C01.reader.end")
+}
